@@ -4,6 +4,7 @@ harness/c16/c16.c executes against the real driver.  Commands and value syntax: 
 -/
 import NV.Common.Proto
 import NV.C16.Model
+import NV.C16.Tree
 import NV.C16.Spec
 
 namespace NV.C16
@@ -23,9 +24,76 @@ def bytesOfHex (s : String) : List Byte := hexBytes s.toList
 
 def strOfBytes (b : List Byte) : String := String.ofList (b.map Char.ofNat)
 
+/-! ### the real program tree dumped by the harness (`tree P(name;defined;total;V[n:flags,..];I[mod:off:P(..),..])`) -/
+
+def takeUntil (stop : Char → Bool) : List Char → List Char × List Char
+  | [] => ([], [])
+  | c :: r => if stop c then ([], c :: r) else let p := takeUntil stop r; (c :: p.1, p.2)
+
+def natOf (cs : List Char) : Option Nat := (String.ofList cs).toNat?
+
+partial def parseVarDecls : List Char → List VarDecl → Option (List VarDecl × List Char)
+  | ']' :: r, acc => some (acc.reverse, r)
+  | cs, acc =>
+    let (nm, r1) := takeUntil (· == ':') cs
+    match r1 with
+    | ':' :: r2 =>
+      let (fl, r3) := takeUntil (fun c => c == ',' || c == ']') r2
+      match natOf fl, r3 with
+      | some f, ',' :: r4 => parseVarDecls r4 (⟨strBytes (String.ofList nm), f⟩ :: acc)
+      | some f, ']' :: r4 => some ((⟨strBytes (String.ofList nm), f⟩ :: acc).reverse, r4)
+      | _, _ => none
+    | _ => none
+
+mutual
+partial def parseProg : List Char → Option (Prog × List Char)
+  | 'P' :: '(' :: cs =>
+    let (nm, r1) := takeUntil (· == ';') cs
+    let (nd, r2) := takeUntil (· == ';') (r1.drop 1)
+    let (nt, r3) := takeUntil (· == ';') (r2.drop 1)
+    match natOf nd, natOf nt, r3 with
+    | some d, some t, ';' :: 'V' :: '[' :: r4 =>
+      match parseVarDecls r4 [] with
+      | some (vars, ';' :: 'I' :: '[' :: r5) =>
+        match parseInhs r5 with
+        | some (inhs, ')' :: r6) =>
+          if vars.length == d then some (.mk (strBytes (String.ofList nm)) t inhs vars, r6) else none
+        | _ => none
+      | _ => none
+    | _, _, _ => none
+  | _ => none
+partial def parseInhs : List Char → Option (Inhs × List Char)
+  | ']' :: r => some (.nil, r)
+  | cs =>
+    let (md, r1) := takeUntil (· == ':') cs
+    let (off, r2) := takeUntil (· == ':') (r1.drop 1)
+    match natOf md, natOf off, parseProg (r2.drop 1) with
+    | some m, some o, some (p, r3) =>
+      match r3 with
+      | ',' :: r4 => (parseInhs r4).map (fun q => (.cons m o p q.1, q.2))
+      | ']' :: r4 => some (.cons m o p .nil, r4)
+      | _ => none
+    | _, _, _ => none
+end
+
+mutual
+partial def renderProg : Prog → String
+  | .mk n t inhs vars =>
+    s!"P({strOfBytes n};{vars.length};{t};V[" ++ ",".intercalate (vars.map (fun v => s!"{strOfBytes v.name}:{v.flags}")) ++
+      "];I[" ++ ",".intercalate (renderInhs inhs) ++ "])"
+partial def renderInhs : Inhs → List String
+  | .nil => []
+  | .cons m o p r => s!"{m}:{o}:{renderProg p}" :: renderInhs r
+end
+
 structure DState where
   vars : List (Var Float)
   progName : List Byte := strBytes "c16/obj.c"
+  /-- generated program: the real tree and the object's variable array; commands then use the coded tree walks -/
+  tree : Option Prog := none
+  vals : List V := []
+  /-- `tree` lines dumped by the harness for this case, in the order of the `useg` commands -/
+  dumps : List String := []
   file : Option (List Byte) := none
   out : List String := []      -- newest first
 
@@ -75,7 +143,57 @@ def fileCanon (progName : List Byte) (vars : List (Var Float)) (zeros : Bool) : 
 def classify (old new_ : Option (List Byte)) (cur : Option (List Byte)) : String :=
   match cur with
   | none => "none"
-  | some c => if some c == old then "old" else if some c == new_ then "new" else "other"
+  | some c => if some c == old && some c == new_ then "both" else if some c == old then "old" else if some c == new_ then "new" else "other"
+
+def treeChunks (s : DState) (p : Prog) (zeros : Bool) (vals : List V) : Option (List (List Byte)) :=
+  (saveTreeLines FloatIO zeros p vals).map (fun ls => headerLine p.name :: ls)
+
+/-- commands on a generated program (`useg`): save_object / restore_object through the coded tree walks -/
+def runTreeCmd (s : DState) (p : Prog) (line : String) : Option DState :=
+  match toks line with
+  | ["setm", vt] =>
+    match parseValue vt with
+    | some (.arr xs) => some (if xs.length == s.vals.length then { s with vals := xs.toList } else s.emit "seterr")
+    | _ => some (s.emit "badval")
+  | ["so", z] =>
+    let zeros := z != "0"
+    if s.vals.any (fun v => saveVariable FloatIO v == .crash) then some (s.emit "crash model")
+    else
+      match treeChunks s p zeros s.vals, treeChunks s p zeros (s.vals.map canonOrder) with
+      | some ch, some chc =>
+        let s := { s with file := some ch.flatten }
+        some ((s.emit "so 1").emit ("file " ++ hexOf chc.flatten))
+      | _, _ => some (s.emit "crash model")
+  | "ro" :: nc :: _ => some (ro nc)
+  | "rox" :: nc :: _ => some (ro nc)
+  | [c, z] =>
+    if c == "cp" ∨ c == "cf" then
+      match treeChunks s p (z != "0") s.vals with
+      | none => some (s.emit "crash model")
+      | some chunks =>
+        let n := scriptLen chunks
+        let fs0 : FS := { file := s.file, tmp := none }
+        let newc := some chunks.flatten
+        let s := s.emit s!"{c} n={n}"
+        some ((List.range (n + 1)).foldl (fun s k =>
+          if c == "cp" then
+            let fs := fs0.run ((saveScript chunks none).1.take k)
+            s.emit s!"cp {k} {classify s.file newc fs.file} tmp={if fs.tmp.isSome then 1 else 0}"
+          else
+            let (cs, ret) := saveScript chunks (some k)
+            let fs := fs0.run cs
+            s.emit s!"cf {k} ret={ret} {classify s.file newc fs.file} tmp={if fs.tmp.isSome then 1 else 0}") s)
+    else none
+  | _ => none
+where
+  ro (nc : String) : DState :=
+    let (ret, out) := restoreObjectT FloatIO utf8Len (nc != "0") s.file p s.vals
+    let pr (vals : List V) : String := "vars " ++ pv false (.arr (Vals.ofList vals))
+    match out with
+    | .done vals => ({ s with vals := vals }.emit s!"ro {ret}").emit (pr vals)
+    | .error m vals => (({ s with vals := vals }.emit ("err " ++ m)).emit "roerr").emit (pr vals)
+    | .crash => s.emit "crash model"
+    | .stuck => s.emit "stuck model"
 
 def runRo (s : DState) (nc : String) : DState :=
   let (ret, out) := restoreObject FloatIO utf8Len (nc != "0") s.file s.vars
@@ -86,7 +204,7 @@ def runRo (s : DState) (nc : String) : DState :=
   | .crash => s.emit "crash model"
   | .stuck => s.emit "stuck model"
 
-def runCmd (s : DState) (line : String) : DState :=
+def runCmdFlat (s : DState) (line : String) : DState :=
   match toks line with
   | [] => s
   | ["rt", vt] =>
@@ -158,8 +276,31 @@ def runCmd (s : DState) (line : String) : DState :=
     else s.emit s!"badcmd {line}"
   | _ => if line.startsWith "#" then s else s.emit s!"badcmd {line}"
 
+def runCmd (s : DState) (line : String) : DState :=
+  match toks line with
+  | "prog" :: _ => s
+  | ["useg", _] =>
+    match s.dumps with
+    | d :: rest =>
+      match parseProg ((d.drop 5).toString.toList) with
+      | some (p, []) =>
+        let s := { s with dumps := rest, tree := some p, vals := List.replicate p.total (.int 0), progName := p.name }
+        -- the dumped tree is echoed from the parsed structure; a tree that is not laid out as `slots` says is reported
+        if p.wf then s.emit ("tree " ++ renderProg p) else (s.emit ("tree " ++ renderProg p)).emit "tree-not-well-formed"
+      | _ => { s with dumps := rest }.emit "tree-unparsable"
+    | [] => s.emit "tree-missing"
+  | "use" :: _ => runCmdFlat { s with tree := none } line
+  | _ =>
+    match s.tree with
+    | some p =>
+      match runTreeCmd s p line with
+      | some s' => s'
+      | none => runCmdFlat s line
+    | none => runCmdFlat s line
+
 def runModel (lines : List String) : List String :=
-  ((lines.foldl runCmd { vars := layoutM }).out).reverse
+  let (cmds, dumps) := splitJudge lines
+  ((cmds.foldl runCmd { vars := layoutM, dumps := dumps }).out).reverse
 
 def runJudge (body : List String) : List String :=
   let (input, impl) := splitJudge body
